@@ -635,10 +635,8 @@ static cfg_opt_t *cfg_addopt(cfg_t *cfg, char *key)
 	cfg->opts[num].name = strdup(key);
 	cfg->opts[num].type = CFGT_STR;
 
-	if (!cfg->opts[num].name) {
-		free(opts);
-		return NULL;
-	}
+	if (!cfg->opts[num].name)
+		return NULL;	/* cfg->opts[num] still is the CFG_END() marker */
 
 	/* Set new CFG_END() */
 	memset(&cfg->opts[num + 1], 0, sizeof(cfg_opt_t));
